@@ -94,8 +94,8 @@ def none_ok(t):
 
 
 POSITIONS = ['arg', 'field', 'field2', 'array', 'seq', 'seq-arg', 'xmlattr', 'xmldata', 'ret-multi', 'header',
-             'bare', 'out_bare', 'inherited', 'inherited-seq']
-XML_ONLY = {'xmlattr', 'xmldata', 'header'}
+             'bare', 'out_bare', 'inherited', 'inherited-seq', 'header2a', 'header2b']
+XML_ONLY = {'xmlattr', 'xmldata', 'header', 'header2a', 'header2b'}
 
 
 def _single(t):
@@ -124,11 +124,13 @@ def program_for(atom_t, pos):
             if atom_t[0] != 'p' and atom_t[0] != 'e':
                 return None
             ft = [atom_t[0], atom_t[1], dict(atom_t[2] or {}, max_occurs='unbounded')]
-        # (the derived class adds a mandatory member; the base class is a parameter type of its own, used after the
-        # derived one: what is cached for the derived class must not leak into the base class)
+        # (a second hierarchy rides along: its derived class adds a mandatory member and its base class is a parameter type
+        # of its own, used after the derived one - what is cached for a derived class must not leak into its base class)
         prog['classes'].append({'n': 'P0', 'fields': [['z', I], ['f', ft]]})
         prog['classes'].append({'n': 'P', 'base': 'P0', 'fields': [['y', ['p', 'Integer', {'min_occurs': 1}]]]})
-        m['args'] = [['a', ['c', 'P', {}]], ['b0', ['c', 'P0', {}]]]
+        prog['classes'].append({'n': 'B0', 'fields': [['k', I]]})
+        prog['classes'].append({'n': 'D0', 'base': 'B0', 'fields': [['y2', ['p', 'Integer', {'min_occurs': 1}]]]})
+        m['args'] = [['a', ['c', 'P', {}]], ['d', ['c', 'D0', {}]], ['b0', ['c', 'B0', {}]]]
         m['ret'] = ['c', 'P', {}]
     elif pos == 'field2':
         prog['classes'].append({'n': 'P', 'fields': [['f', atom_t]]})
@@ -172,6 +174,14 @@ def program_for(atom_t, pos):
         m['ret'] = I
         m['in_header'] = ['H']
         m['out_header'] = ['H']
+    elif pos in ('header2a', 'header2b'):
+        # two header classes; one of them is left out (a: the first, b: the second)
+        prog['classes'].append({'n': 'G', 'fields': [['g', ['p', 'Unicode', {}]]]})
+        prog['classes'].append({'n': 'H', 'fields': [['f', atom_t], ['z', I]]})
+        m['args'] = [['z', I]]
+        m['ret'] = I
+        m['in_header'] = ['G', 'H']
+        m['out_header'] = ['G', 'H']
     elif pos == 'bare':
         prog['classes'].append({'n': 'P', 'fields': [['z', I], ['f', atom_t]]})
         m['args'] = [['a', ['c', 'P', {}]]]
@@ -194,7 +204,7 @@ def embed(pos, atom_t, v, v2=None, mode='one'):
         return [v, 7], v, None, None
     if pos in ('inherited', 'inherited-seq'):
         o = Obj('P', z=1, f=v, y=2)
-        return [o, Obj('P0', z=3, f=v)], o, None, None
+        return [o, Obj('D0', k=1, y2=2), Obj('B0', k=3)], o, None, None
     if pos in ('field', 'seq'):
         o = Obj('P', z=1, f=v, y=2)
         return [o], o, None, None
@@ -218,6 +228,10 @@ def embed(pos, atom_t, v, v2=None, mode='one'):
         return [7, v], (1, v, 2), None, None
     if pos == 'header':
         return [7], 8, {'H': Obj('H', f=v, z=5)}, {'H': Obj('H', f=v, z=6)}
+    if pos == 'header2a':
+        return [7], 8, {'G': None, 'H': Obj('H', f=v, z=5)}, {'G': None, 'H': Obj('H', f=v, z=6)}
+    if pos == 'header2b':
+        return [7], 8, {'G': Obj('G', g='gee'), 'H': None}, {'G': Obj('G', g='gee'), 'H': None}
     raise ValueError(pos)
 
 
